@@ -71,22 +71,24 @@ namespace Givaro {
         Degree degF, degG;
         degree(degF,A); degree(degG,B);
         if ((degF < 0) || (degG == 0)) {
-            _domain.inv( tt, leadcoef(r0,B)); assign(T0, tt);
+            _domain.inv( tt, leadcoef(r0,B));
+            assign(F, B); // before the cofactors are written: S0 or T0 may be B
+            assign(T0, tt);
             assign(S0, zero);
-            assign(F, B);
             return mulin(F,tt);
         }
         if ((degG < 0) || (degF == 0)) {
-            _domain.inv( tt, leadcoef(r0,A)); assign(S0, tt);
+            _domain.inv( tt, leadcoef(r0,A));
+            assign(F, A); // before the cofactors are written: S0 or T0 may be A
+            assign(S0, tt);
             assign(T0, zero);
-            assign(F, A);
             return mulin(F,tt);
         }
 
 
         //   if (degF >= degG) {
+        assign(G, B); // before F is written: F may be B
         assign(F, A);
-        assign(G, B);
         //   }
         //   else {
         //     assign(F, B);
@@ -231,6 +233,11 @@ namespace Givaro {
     {
         //     write(write(std::cerr << "A: ", A) << ", B: ", B) << std::endl;
 
+        if ((&F == &A) || (&F == &B)) { // F holds the running remainder, A and B are read again at the end
+            Rep L; init(L);
+            lcm(L, A, B);
+            return assign(F, L);
+        }
         Rep G, S0, T0;
         Degree degA, degB, degG;
         degree(degA,A); degree(degB,B);
